@@ -34,7 +34,9 @@ def tables(prog):
     from . import vo
     for f in fns:
         for cs in f.terms.calls:
-            if cs.callee.name in ("index", "index_mut") and len(cs.args) == 2 and vo.dim(f, cs.args[1]) == "Label":
+            if (cs.callee.name in ("index", "index_mut") or
+                (cs.callee.name in ("get", "get_mut") and ("slice" in cs.callee.key() or "Vec" in cs.callee.key()))) \
+                    and len(cs.args) == 2 and vo.dim(f, cs.args[1]) == "Label":
                 for k in lt.fieldkeys(cs.args[0]):
                     tabs.add(k)
     return tabs, fns
